@@ -10,6 +10,7 @@ import ConfModel.Lemmas.DataTracerSeg
 import ConfModel.Lemmas.DataTracerW
 import ConfModel.Lemmas.EnvelopeEncode
 import ConfModel.Lemmas.CallerBuf
+import ConfModel.Lemmas.H2Body
 import ConfModel.Generated.C14Facts
 namespace ConfModel.Props.C14
 open ConfModel.DataTracer ConfModel.Envelopes
@@ -302,6 +303,68 @@ theorem payload_irrelevant (c : Cfg) (e : Env) (p q : Bytes)
   itemEvents_payload_irrel c e p q h
 
 example : itemEvents ⟨true, true, some⟩ ⟨⟨2, 3⟩, [1, 2, 3]⟩ = itemEvents ⟨true, true, some⟩ ⟨⟨2, 3⟩, []⟩ := by decide
+
+/-! ### streams traced at the HTTP/2 connection level: `emitUnfinished` once or twice, ends in any order -/
+
+/-- **`emitUnfinished` is idempotent**: it resets the whole state (the partial prefix included), so
+a second call — `closeStreamLocked` calls the request tracer's again when the response ends —
+emits nothing, from every state. -/
+theorem emit_unfinished_idempotent (c : Cfg) (s : St) :
+    bstep c (bstep c s .flush).1 .flush = (init, []) ∧
+    brun c s [.flush, .flush] = brun c s [.flush] := by
+  constructor
+  · simp [bstep, unfinished_init]
+  · simp [brun, bstep, unfinished_init]
+
+/-- One tracer at the connection level: the DATA payloads of a body, then `emitUnfinished` once,
+twice or any number of times, give exactly the specified events of the bytes that arrived — one
+data event per message, a final partial one with the count seen, nothing lost, nothing twice. -/
+theorem h2_body_events_eq_spec (c : Cfg) (chunks : List Bytes) (k : Nat) :
+    (brun c init (chunks.map BOp.data ++ List.replicate (k+1) BOp.flush)).2 = specEvents c chunks.flatten := by
+  rw [brun_append, brun_datas, List.replicate_succ]
+  simp only [brun, bstep, brun_flushes_init, List.append_nil]
+  rw [chunk_independent]
+  unfold specEvents
+  cases hs : c.isStream
+  · simp [feed, hs, unfinished, init, countEvents]
+  · simp only [feed, hs, if_true]
+    exact run_init_spec c chunks.flatten
+
+example : (brun ⟨true, true, some⟩ init ([[0, 0, 0], [0, 2, 7]].map BOp.data ++ [.flush, .flush])).2 =
+    [Ev.data (some ⟨0, 2⟩) 1] := by decide
+
+example : (brun ⟨true, true, some⟩ init ([[0, 0, 0]].map BOp.data ++ [.flush, .flush, .flush])).2 =
+    [Ev.data none 3] := by decide
+
+/-- **A stream's body events, whatever the order in which its two directions end.**  For every
+sequence of frame-level events of a stream (request / response DATA in any interleaving; the
+request ending first, or the response — END_STREAM, RST_STREAM, GOAWAY, connection loss — while
+the request is part-way through a prefix or a payload): if the request's share of it is its DATA
+payloads followed by one or more `emitUnfinished` calls, the request-side events are the
+specified events of the request bytes that arrived; likewise for the response side. -/
+theorem h2_stream_body_events (cq cp : Cfg) (ops : List HOp) (chunks : List Bytes) (k : Nat) :
+    (reqProj ops = chunks.map BOp.data ++ List.replicate (k+1) BOp.flush →
+      qEvs (hrun cq cp hinit ops).2 = specEvents cq chunks.flatten) ∧
+    (respProj ops = chunks.map BOp.data ++ List.replicate (k+1) BOp.flush →
+      pEvs (hrun cq cp hinit ops).2 = specEvents cp chunks.flatten) := by
+  constructor
+  · intro h
+    rw [(hrun_req cq cp ops hinit).1, h]
+    exact h2_body_events_eq_spec cq chunks k
+  · intro h
+    rw [(hrun_resp cq cp ops hinit).1, h]
+    exact h2_body_events_eq_spec cp chunks k
+
+/-- non-vacuity: the response ends (trailers-only / RST) while the request has seen 3 bytes of a
+prefix; and: the request ends inside a prefix, the response ends later (second `emitUnfinished`) -/
+example :
+    reqProj [.reqData [0, 0], .reqData [0], .respEnd] = [[0, 0], [0]].map BOp.data ++ List.replicate 1 BOp.flush ∧
+    hrun ⟨true, true, some⟩ ⟨false, true, some⟩ hinit [.reqData [0, 0], .reqData [0], .respEnd] =
+      (hinit, [.q (Ev.data none 3), .pEnd]) ∧
+    reqProj [.reqData [0, 0], .reqEnd, .respData [0, 0, 0, 0, 0], .respEnd] =
+      [[0, 0]].map BOp.data ++ List.replicate 2 BOp.flush ∧
+    (hrun ⟨true, true, some⟩ ⟨false, true, some⟩ hinit [.reqData [0, 0], .reqEnd, .respData [0, 0, 0, 0, 0], .respEnd]).2 =
+      [.q (Ev.data none 2), .qEnd, .p (Ev.data (some ⟨0, 0⟩) 0), .pEnd] := by decide
 
 /-! ### a caller that reuses one array for all its calls -/
 
